@@ -113,12 +113,9 @@ end
 
 /-- call function `name` with `args` (first parameter first); results in declaration order -/
 def callFuel (fs : List Func) (gl : String → Int) (fuel : Nat) (name : String) (args : List Int) : Option (List Int) :=
-  match findFunc fs name with
-  | none => none
-  | some fn =>
-    match step fs gl fuel (.call name) { locals := [], stack := args.reverse } with
-    | some (_, s) => some (s.stack.take fn.results).reverse
-    | none => none
+  (findFunc fs name).bind fun fn =>
+    (step fs gl fuel (.call name) { locals := [], stack := args.reverse }).map fun r =>
+      (r.2.stack.take fn.results).reverse
 
 def callFn (fs : List Func) (gl : String → Int) (name : String) (args : List Int) : Option (List Int) :=
   callFuel fs gl 400 name args
